@@ -45,8 +45,13 @@ Merge(dirs, fname, i) ==
          IN IF i = Len(dirs) THEN this
             ELSE [k \in (DOMAIN this) \cup (DOMAIN rest) |-> IF k \in DOMAIN rest THEN rest[k] ELSE this[k]]
 
-TableB == Merge(TableDirs, "TableB.json", 1)
-TableD == Merge(TableDirs, "TableD.json", 1)
+(* TLC re-evaluates a definition that involves RECURSIVE operators at every use (it cannot see that
+   it is constant), so the merged tables are computed once, when the ASSUME is evaluated at start-up,
+   and kept in TLC registers that every worker inherits. *)
+ASSUME TLCSet(11, Merge(TableDirs, "TableB.json", 1))
+ASSUME TLCSet(12, Merge(TableDirs, "TableD.json", 1))
+TableB == TLCGet(11)
+TableD == TLCGet(12)
 
 InB(id) == IdStr(id) \in DOMAIN TableB
 InD(id) == IdStr(id) \in DOMAIN TableD
